@@ -329,7 +329,9 @@ def _eval_subm(case):
     if bad:
         i = bad[0]
         fnd.append(dict(kind='property', key=f'subm:{dtype}{sfx}', detail=dict(a=alla[i], b=allb[i], got=got[i], spec=spec[i], n=len(bad)),
-                        case=dict(block='subm-rand', dtype=dtype, a=[alla[i]], b=[allb[i]], layout=layout, outmode=mode)))
+                        # the reduced witness is the single failing pair -- except in the size-threshold stream, where the length is the point
+                        case=(dict(case) if case.get('size') == 'threshold' else
+                              dict(block='subm-rand', dtype=dtype, a=[alla[i]], b=[allb[i]], layout=layout, outmode=mode))))
     badm = [i for i, (x, y) in enumerate(zip(got, model)) if x != y]
     if badm and not bad:
         i = badm[0]
